@@ -92,6 +92,7 @@ def run_jobs(jobs, progress=None):
     prepared = {}  # i -> (gb, wd, t0)
     tasks = []  # (i, props, tag)
     parts = {}
+    canaries = {}
 
     def finish(i, r):
         job = jobs[i]
@@ -129,7 +130,19 @@ def run_jobs(jobs, progress=None):
                 keys[i] = None
         wd = os.path.join(scratch(), "j%04d_%s" % (i, "".join(c if c.isalnum() else "_" for c in job.name)[:60]))
         t0 = time.time()
+        # the vacuity canary (an assertion that must FAIL) lives in a twin binary: finding its
+        # satisfying assignment inside the full multi-property formula costs minutes, alone seconds
         gb, reason = cbmc.prepare(job, wd)
+        if gb is not None and job.canary:
+            cgb, reason = cbmc.prepare(job, wd, "_canary", ["VF_WITH_CANARY"])
+            if cgb is None:
+                gb = None
+            else:
+                cname = cbmc.canary_property(job, cgb, wd)
+                if cname is None:
+                    gb, reason = None, "vacuity guard: canary assertion not found in the harness"
+                else:
+                    canaries[i] = (cgb, cname)
         if gb is None:
             r = cbmc._new_result(job, wd)
             r["reason"] = reason
@@ -164,6 +177,11 @@ def run_jobs(jobs, progress=None):
                     for k, g in enumerate(groups):
                         fut = ex.submit(cbmc.solve, jobs[i], gb, wd, g, "_%d" % k)
                         pend[fut] = ("solve", i, k)
+                    if i in canaries:
+                        cgb, cname = canaries[i]
+                        remaining[i] += 1
+                        fut = ex.submit(cbmc.solve, jobs[i], cgb, wd, [cname], "_canary", ["--slice-formula"])
+                        pend[fut] = ("solve", i, "canary")
                 else:
                     parts[i].append(f.result())
                     remaining[i] -= 1
